@@ -70,11 +70,13 @@ pub fn gen_bank_program(t: &mut Tape) -> (Program, BankInfoGen) {
         defs.push(BankDef {
             name: format!("b{}", b),
             bits: if bits == 8 && t.flip() { None } else { Some(bits) },
-            addr: match t.weighted(&[4, 2, 2, 1]) {
+            // v3: also banks whose addresses in BITS do not fit a machine word (2^61 bytes and up)
+            addr: match t.weighted(&if crate::engine::gen_version() >= 3 { [4, 2, 2, 1, 1] } else { [4, 2, 2, 1, 0] }) {
                 0 => None,
                 1 => Some(*t.pick(&[1i64, 0x10, 0x100])),
                 2 => Some(0x8000),
-                _ => Some(0xffff_fff0),
+                3 => Some(0xffff_fff0),
+                _ => Some(*t.pick(&[1i64 << 61, (1i64 << 61) + 1, (1i64 << 62) + 5])),
             },
             size,
             outp,
@@ -163,8 +165,8 @@ pub fn gen_bank_program(t: &mut Tape) -> (Program, BankInfoGen) {
                 }
             }
             3 => {
-                let a = *t.pick(&[1u64, 2, 4, 8, 16, 32, 3]);
-                let abs = addr_of(cur, &defs) as usize * unit + cursor[cur];
+                let a = if crate::engine::gen_version() >= 3 { *t.pick(&[1u64, 2, 4, 8, 16, 32, 3, 24, 6, 12, 40]) } else { *t.pick(&[1u64, 2, 4, 8, 16, 32, 3]) };
+                let abs = (addr_of(cur, &defs) as usize).wrapping_mul(unit).wrapping_add(cursor[cur]);
                 let a_us = a as usize;
                 if abs % a_us != 0 {
                     cursor[cur] += a_us - abs % a_us;
